@@ -7,6 +7,9 @@
 use crate::datamodel::Data;
 use crate::fsm::GlobalData;
 use std::collections::HashMap;
+#[cfg(rufsm_verif)]
+use crate::verif_sync::{Arc, Mutex, MutexGuard};
+#[cfg(not(rufsm_verif))]
 use std::sync::{Arc, Mutex, MutexGuard};
 
 /// Trait to inject custom actions into the datamodel.
